@@ -12,8 +12,8 @@ use std::io::Write;
 use std::time::Instant;
 
 pub fn generators(tier: &str) -> Vec<StreamGen> {
-    let mut v = super::c04::streams_with(tier, 3);
-    v.extend(super::c05::streams_with(tier, 3));
+    let mut v = super::c04::streams_with(tier, if tier == "thorough" { 4 } else { 3 });
+    v.extend(super::c05::streams_with(tier, if tier == "thorough" { 4 } else { 3 }));
     v
 }
 
